@@ -79,7 +79,10 @@ func (p *Program) ApplyLayout(prog *Program) {
 
 func (p *Program) ApplyComponent(name string, prog *Program, progFilePath string) *fail.Error {
 	for _, comp := range p.Components {
-		if comp.Name.Value != name {
+		// every use of a component gets its own parsed program (the slot
+		// bodies of the use are stored into it), so apply this program to
+		// the first use that does not have one yet and to no other
+		if comp.Name.Value != name || comp.Block != nil {
 			continue
 		}
 
@@ -112,6 +115,8 @@ func (p *Program) ApplyComponent(name string, prog *Program, progFilePath string
 		}
 
 		comp.Block = prog
+
+		break
 	}
 
 	return nil
